@@ -12,6 +12,7 @@ import vf  # noqa
 src = sys.argv[1]
 if os.path.exists(src):
     src = open(src).read()
+vf.build()
 names = sys.argv[2:] or re.findall(r"(?m)^\s*let\s+([A-Za-z_][A-Za-z_0-9]*)", src)
 o = vf.run_jobs([{"id": "x", "src": src, "observe": names, "limits": {"calls": 10 ** 6, "search": 10 ** 5}, "timeout_ms": 20000}], "xr%d" % os.getpid())["x"]
 print("outcome:", vf.job_outcome(o))
